@@ -198,15 +198,18 @@ func FromSlice[T comparable](data []T, comp gogu.CompFn[T]) *Heap[T] {
 
 // Merge joins two heaps into a new one preserving the original ones.
 func (h *Heap[T]) Merge(h2 *Heap[T]) *Heap[T] {
-	newHeap := NewHeap(h.comp)
+	h.mu.RLock()
+	comp := h.comp
+	data1 := append([]T(nil), h.data...)
+	h.mu.RUnlock()
 
-	for i := 0; i < h.size(); i++ {
-		newHeap.Push(h.data[i])
-	}
+	h2.mu.RLock()
+	data2 := append([]T(nil), h2.data...)
+	h2.mu.RUnlock()
 
-	for i := 0; i < h2.size(); i++ {
-		newHeap.Push(h2.data[i])
-	}
+	newHeap := NewHeap(comp)
+	newHeap.Push(data1...)
+	newHeap.Push(data2...)
 
 	return newHeap
 }
@@ -214,17 +217,20 @@ func (h *Heap[T]) Merge(h2 *Heap[T]) *Heap[T] {
 // Meld merge two heaps into a new one containing all the
 // elements of both and destroying the original ones.
 func (h *Heap[T]) Meld(h2 *Heap[T]) *Heap[T] {
-	newHeap := NewHeap(h.comp)
-
-	for i := 0; i < h.size(); i++ {
-		newHeap.Push(h.data[i])
-	}
-
-	for i := 0; i < h2.size(); i++ {
-		newHeap.Push(h2.data[i])
-	}
+	h.mu.Lock()
+	comp := h.comp
+	data1 := h.data
 	h.data = nil
+	h.mu.Unlock()
+
+	h2.mu.Lock()
+	data2 := h2.data
 	h2.data = nil
+	h2.mu.Unlock()
+
+	newHeap := NewHeap(comp)
+	newHeap.Push(data1...)
+	newHeap.Push(data2...)
 
 	return newHeap
 }
